@@ -89,6 +89,40 @@ def spec_to_code(ctx, gutils, Grid, cfg):
                 break
             if not (np.array_equal(pa, p0) and np.array_equal(pts, q0a)):
                 ctx.violation("points_inside_polygon:argument-modified", "inputs changed", {"poly": c["poly"]})
+        # scale laws of the even-odd contract: (a) extra vertices ON the edges (every edge cut into 2^j equal parts: 130+ vertices)
+        # describe the same polygon; (b) the cells of a much larger, non-square grid (1000+ cells) whose centres are inside are
+        # the same lattice points
+        if n % 5 == 0:
+            P0 = np.array(c["poly"], dtype=float)
+            sdiv = 2
+            while sdiv * len(P0) < 140:
+                sdiv *= 2
+            nxt = np.roll(P0, -1, axis=0)
+            fine = np.concatenate([P0 + (nxt - P0) * (j / sdiv) for j in range(sdiv)], axis=1).reshape(-1, 2)
+            try:
+                got = np.asarray(gutils.points_inside_polygon(allpts[keep], fine))
+            except Exception as e:
+                ctx.violation("points_inside_polygon:exception", repr(e), {"poly": c["poly"], "edges_cut_in": sdiv})
+                got = None
+            if got is not None and not np.array_equal(got, ans[keep]):
+                k = int(np.nonzero(got != ans[keep])[0][0])
+                ctx.violation("points_inside_polygon:many-vertices", "point %s: got %d, even-odd rule gives %d for the polygon with every edge cut into %d parts (%d vertices)" %
+                              (allpts[keep][k].tolist(), int(got[k]), int(ans[keep][k]), sdiv, len(fine)), {"poly": c["poly"], "edges_cut_in": sdiv})
+            for wide in (True, False):
+                padc, padr = (150, 0) if wide else (0, 150)
+                big = Grid("big", nq + padc + 3, nq + padr + 2, cellsize=1.0, xllcorner=q0 - 0.5 - padc, yllcorner=q0 - 0.5 - padr)
+                try:
+                    cells = set(int(v) for v in big.cells_inside_polygon(P0)["cell"].values)
+                except Exception as e:
+                    ctx.violation("cells_inside_polygon:exception", repr(e), {"poly": c["poly"], "grid": [big.nrows, big.ncols]})
+                    continue
+                exp_in, free = set(), set()
+                for (x, y), a in zip(allpts.astype(int).tolist(), ans.tolist()):
+                    cell = (big.nrows - 1 - (y - q0 + padr)) * big.ncols + (x - q0 + padc)
+                    (exp_in if a == 1 else free if a == 2 else set()).add(cell)
+                if (cells - free) != exp_in:
+                    ctx.violation("cells_inside_polygon:large-grid", "%d x %d grid: cells %s, centres inside %s" %
+                                  (big.nrows, big.ncols, sorted(cells - free)[:12], sorted(exp_in)[:12]), {"poly": c["poly"], "grid": [big.nrows, big.ncols]})
         # cells_inside_polygon on the lattice grid (every 3rd polygon); the SAME grid object is moved and rescaled
         # together with the polygon between queries (the set of cells must not change)
         if n % 3 == 0:
